@@ -82,6 +82,15 @@ CHECKS = {
              "validated against the spec (which allows a failed input either to leave the stars or to shift None in); "
              "random programs split at every line break are checked for continuation prompts and script equivalence.",
         note="Completeness of accumulated text is judged by hy's own reader (property C19 covers the reader)."),
+    "C41": dict(
+        engine="session", level="model_checking", design="5.9, 6/C41",
+        technique="TLC-enumerated command lines of HyCmdline (scanner invariants PassThrough/ModeRight/FlagsRight) "
+                  "replayed as real `python -m hy` processes in all four modes",
+        text="HyCmdline generates command lines from their structure and scans the flat tokens as cmdline_handler does; "
+             "TLC checks that mode, options and pass-through arguments equal the structure for every line; sampled "
+             "groups are executed as subprocesses under all nine designator spellings and the program's sys.argv, exit "
+             "status and output are compared with the spec and across modes.",
+        note="-i / REPL start-up and hy2py/hyc command lines are not covered; -m needs the module on sys.path (cwd)."),
     "C38": dict(
         engine="gensym", level="model_checking", design="5.8, 6/C38",
         technique="TLC exhaustive interleavings of the op program extracted from gensym's bytecode; "
